@@ -1,10 +1,13 @@
 /- Line-protocol model driver for C11 (parser + %j printer).  Mirrors harness/C11/pharness.c op for op.
      case <hexbytes|-> <op,op,...> <tokhex=res,tokhex=res,...|->   ->  "<events>| <trace>| <token scans>"
      jdn <term tokens...>                                           ->  hex of the %j text | refused | skip
+     rtm <term tokens...>                                           ->  the statement of Props.C11.jdn_roundtrip evaluated on the model:
+                                                                        ok <hex> | refused | hyp:dict | MISMATCH ... | skip
 -/
 import Driver.Util
 import JanetModel.Parse.Model
 import JanetModel.PP.Jdn
+import JanetModel.Parse.Sm
 open Driver JanetModel.Parse JanetModel.PP JanetModel.Gen.Parse
 
 def hexOfB (bs : List B) : String := hexOfBytes (bs.map (·.toNat))
@@ -297,9 +300,36 @@ def runJdn (toks : List String) : String :=
   | some (v, _) =>
     if ppRefusesMisreadSymbols && needsScan v then "skip" else
     -- symbols that look like numbers need the scanner: not available here -> only when the source refuses them
-    match jdn (fun _ => some "?") fmtOfTag 1024 v with
+    match jdn (fun _ => some "?") fmtOfTag jdnDefaultDepth v with
     | some bs => if bs.isEmpty then "-" else hexOfB bs
     | none => "refused"
+
+/-- all number tags of a value -/
+partial def numTags : Value → List String
+  | .num t => [t]
+  | .struct ks vs => (ks ++ vs).flatMap numTags
+  | .table ks vs => (ks ++ vs).flatMap numTags
+  | .tuple _ _ _ l => l.flatMap numTags
+  | .array l => l.flatMap numTags
+  | _ => []
+
+/-- `jdn_roundtrip` on the executable model: print with `%j`'s default budget, feed the text to a fresh model parser through
+    `parseAll` (feed + eof + drain), compare up to source maps.  The scanner inverts the formatter on exactly the number texts of
+    the term (the theorem's `NumOK` hypothesis). -/
+def runRtm (toks : List String) : String :=
+  match buildTerm toks with
+  | none => "bad-op"
+  | some (v, _) =>
+    if needsScan v then "skip" else
+    let tab := (numTags v).filterMap (fun t => (fmtOfTag t).map (fun txt => (txt, t)))
+    let scan : Scan := fun bs => tab.lookup bs
+    match jdn scan fmtOfTag jdnDefaultDepth v with
+    | none => "refused"
+    | some T =>
+      if !v.dictOK then "hyp:dict" else
+      match parseAll scan T with
+      | [Event.value w] => if canon false w.erase == canon false v.erase then "ok " ++ (if T.isEmpty then "-" else hexOfB T) else "MISMATCH value " ++ canon false w
+      | evs => "MISMATCH events " ++ toString evs.length
 
 def stepLine (_ : Unit) (toks : List String) : Unit × String :=
   match toks with
@@ -307,6 +337,7 @@ def stepLine (_ : Unit) (toks : List String) : Unit × String :=
   | ["case", h, s] => ((), runCase h s "-")
   | ["case", h] => ((), runCase h "" "-")
   | "jdn" :: rest => ((), runJdn rest)
+  | "rtm" :: rest => ((), runRtm rest)
   | _ => ((), "bad-op")
 
 def main : IO Unit := runLoop () stepLine
